@@ -367,6 +367,69 @@ pub fn case(ctx: &mut Ctx, idx: u64) {
         }
     }
 
+    // ---- B3b: an InspectDifficulty built or edited by hand is the same as using the setters (clamps included)
+    {
+        use rosu_pp::any::{InspectDifficulty, ModsDependent};
+        let md = |rng: &mut Rng| -> Option<ModsDependent> {
+            if rng.chance(0.6) {
+                Some(ModsDependent {
+                    value: gen_value(rng),
+                    with_mods: rng.chance(0.5),
+                })
+            } else {
+                None
+            }
+        };
+        let ins = InspectDifficulty {
+            mods: sets::gen_mods(&mut rng, mode).to_gamemods(mode),
+            passed_objects: if rng.chance(0.3) { Some(rng.below(u64::from(n_obj) + 2) as u32) } else { None },
+            clock_rate: if rng.chance(0.5) { Some(gen_clock(&mut rng)) } else { None },
+            ar: md(&mut rng),
+            cs: md(&mut rng),
+            hp: md(&mut rng),
+            od: md(&mut rng),
+            hardrock_offsets: if rng.chance(0.3) { Some(rng.chance(0.5)) } else { None },
+            lazer: if rng.chance(0.3) { Some(rng.chance(0.5)) } else { None },
+        };
+        // the same values through the setters
+        let mut want = Difficulty::new().mods(ins.mods.clone());
+        if let Some(p) = ins.passed_objects {
+            want = want.passed_objects(p);
+        }
+        if let Some(c) = ins.clock_rate {
+            want = want.clock_rate(c);
+        }
+        if let Some(m) = ins.ar {
+            want = want.ar(m.value, m.with_mods);
+        }
+        if let Some(m) = ins.cs {
+            want = want.cs(m.value, m.with_mods);
+        }
+        if let Some(m) = ins.hp {
+            want = want.hp(m.value, m.with_mods);
+        }
+        if let Some(m) = ins.od {
+            want = want.od(m.value, m.with_mods);
+        }
+        if let Some(h) = ins.hardrock_offsets {
+            want = want.hardrock_offsets(h);
+        }
+        if let Some(l) = ins.lazer {
+            want = want.lazer(l);
+        }
+        let desc = format!("{ins:?}");
+        let got: Difficulty = if rng.chance(0.5) { ins.into_difficulty() } else { Difficulty::from(ins) };
+        ctx.eval();
+        ctx.count("handbuilt_inspect_checks");
+        if got != want || dump(&got) != dump(&want) {
+            ctx.violation(
+                "C18/B3/handbuilt-inspect",
+                &format!("InspectDifficulty::into_difficulty differs from applying the same values through the setters\n inspect: {desc}\n got : {}\n want: {}", dump(&got), dump(&want)),
+                Some(text),
+            );
+        }
+    }
+
     // ---- B4: documented no-ops
     {
         let base = || sc.apply(Performance::new(&conv).difficulty(d.clone()));
